@@ -23,6 +23,8 @@ type thread struct {
 	pred    func() bool
 	name    string
 	wClosed bool
+	// timerFires (kept on thread 0): how often a may-fire timer channel delivered on this path
+	timerFires int
 }
 
 type waitCase struct {
@@ -78,7 +80,13 @@ func (t *thread) runnable() bool {
 		if t.woken {
 			return true
 		}
-		// a may-fire timer case keeps a blocked select alive
+		// a may-fire timer case keeps a blocked select alive: with nondeterministic
+		// scheduling "the timer fires now" is a scheduling alternative at every point
+		// (picking the thread fires the timer, see wakeByTimer); deterministically the
+		// timer only fires when nobody else can run (fallback in switchAway)
+		if t.m.schedNondet && len(armedTimerCases(t.cases)) > 0 {
+			return true
+		}
 		return false
 	}
 	if t.pred != nil {
@@ -94,18 +102,11 @@ func (m *machine) switchAway(self *thread) {
 	if next == nil {
 		// nobody can run. Timer fallback: a thread blocked in a select with a may-fire case
 		for _, t := range m.threads {
-			if t.done || !t.blocked || t.cases == nil {
+			if t.done || !t.blocked || t.cases == nil || t.woken {
 				continue
 			}
-			for i, c := range t.cases {
-				if !c.send && c.ch != nil && c.ch.mayFire && !c.ch.stopped {
-					t.woken, t.wIdx, t.wVal, t.wOk = true, i, c.ch.fireVal, true
-					c.ch.stopped = true
-					next = t
-					break
-				}
-			}
-			if next != nil {
+			if len(armedTimerCases(t.cases)) > 0 {
+				next = t
 				break
 			}
 		}
@@ -113,6 +114,7 @@ func (m *machine) switchAway(self *thread) {
 	if next == nil {
 		m.reportDeadlock()
 	}
+	m.wakeByTimer(next)
 	if next == self {
 		return
 	}
@@ -123,12 +125,65 @@ func (m *machine) switchAway(self *thread) {
 	}
 }
 
+// armedTimerCases lists the receive cases on running (may-fire) timer channels.
+func armedTimerCases(cases []waitCase) []int {
+	var r []int
+	for i, c := range cases {
+		if !c.send && c.ch != nil && c.ch.mayFire && !c.ch.stopped && !c.ch.closed && len(c.ch.buf) == 0 {
+			r = append(r, i)
+		}
+	}
+	return r
+}
+
+// wakeByTimer: t was picked to run while blocked in a select that nothing has
+// woken yet: one of its running timers fires now.
+func (m *machine) wakeByTimer(t *thread) {
+	if t == nil || t.done || !t.blocked || t.cases == nil || t.woken {
+		return
+	}
+	armed := armedTimerCases(t.cases)
+	if len(armed) == 0 {
+		return
+	}
+	k := 0
+	if len(armed) > 1 && m.schedNondet {
+		m.schedDep = true
+		k = m.choose(len(armed), "timer")
+	}
+	i := armed[k]
+	ch := t.cases[i].ch
+	t.woken, t.wIdx, t.wVal, t.wOk = true, i, ch.fireVal, true
+	ch.stopped = true
+	m.threads[0].timerFires++
+}
+
+// othersRunnable reports whether a thread other than self could run now.
+func (m *machine) othersRunnable(self *thread) bool {
+	for _, t := range m.threads {
+		if t != self && t.runnable() {
+			return true
+		}
+	}
+	return false
+}
+
 func (m *machine) pickNext(self *thread) *thread {
 	var cands []*thread
+	var selfTimer *thread
 	for _, t := range m.threads {
 		if t.runnable() {
+			if t == self && t.blocked && t.cases != nil && !t.woken {
+				// self has just decided to block with a running timer: "fires at once"
+				// was the other alternative of that decision (chanOp), do not repeat it
+				selfTimer = t
+				continue
+			}
 			cands = append(cands, t)
 		}
+	}
+	if len(cands) == 0 && selfTimer != nil {
+		return selfTimer
 	}
 	if len(cands) == 0 {
 		return nil
@@ -174,6 +229,7 @@ func (m *machine) yield(self *thread) {
 	if next == nil || next == self {
 		return
 	}
+	m.wakeByTimer(next)
 	m.cur = next
 	next.resume <- struct{}{}
 	self.park()
@@ -200,6 +256,7 @@ func (m *machine) maybePreempt(self *thread) {
 	m.schedDep = true
 	m.preemptBudget--
 	next := others[k-1]
+	m.wakeByTimer(next)
 	m.cur = next
 	next.resume <- struct{}{}
 	self.park()
@@ -219,6 +276,21 @@ func (m *machine) startThread(in *interpreter, name string, body func(t *thread)
 			if pa, ok := r.(pathAbort); ok {
 				if pa.kind == abortEnd && m.aborted {
 					return
+				}
+				if pa.kind == abortBound && m.wedgeLabel != "" && !m.aborted {
+					// budget exhausted inside a MustReturn region: "does not return"
+					func() {
+						defer func() {
+							if rr := recover(); rr != nil {
+								if pa2, ok := rr.(pathAbort); ok {
+									pa = pa2
+								}
+							}
+						}()
+						m.maxDecs += 50
+						m.recordViolation(m.wedgeLabel, "wedge", map[string]string{"budget": pa.msg})
+						pa = pathAbort{kind: abortViolation, msg: m.wedgeLabel}
+					}()
 				}
 				m.finish(pa)
 				return
@@ -357,6 +429,7 @@ func (m *machine) execCase(c waitCase, self *thread) (value, bool) {
 	}
 	if ch.mayFire && !ch.stopped {
 		ch.stopped = true
+		m.threads[0].timerFires++
 		return ch.fireVal, true
 	}
 	panic(internalError{"execCase: case not ready"})
@@ -372,14 +445,23 @@ func (m *machine) chanOp(self *thread, cases []waitCase, hasDefault bool, isSele
 		}
 	}
 	if len(ready) > 0 {
-		k := 0
-		if len(ready) > 1 {
-			m.schedDep = true
-			k = m.choose(len(ready), "select")
+		n := len(ready)
+		// "may fire": when every ready case is a running timer, the timers not having
+		// fired yet is an alternative too (take default / block); only worth a choice
+		// when the select has a default or somebody else can act meanwhile
+		if m.schedNondet && len(armedTimerCases(cases)) == len(ready) && (hasDefault || m.othersRunnable(self)) {
+			n++
 		}
-		idx := ready[k]
-		v, ok := m.execCase(cases[idx], self)
-		return idx, v, ok
+		k := 0
+		if n > 1 {
+			m.schedDep = true
+			k = m.choose(n, "select")
+		}
+		if k < len(ready) {
+			idx := ready[k]
+			v, ok := m.execCase(cases[idx], self)
+			return idx, v, ok
+		}
 	}
 	if hasDefault {
 		return -1, nil, false
